@@ -28,7 +28,7 @@ func mark(file string, n int) string { return "MARK_" + file + "_" + string(rune
 
 func famFiles() []family {
 	js1 := map[string]string{
-		"src/a.js":      "import {used} from './b.js';\nimport './side.js';\nimport data from './data.json';\nimport ext from 'external-pkg';\nimport * as ext2 from 'external-pkg/sub';\nconst cjs = require('./cjs.cjs');\nconsole.log('MARK_a_1', used, data, ext, ext2, cjs);\nexport const fromA = 'MARK_a_2';\nexport default function main() { return import('./lazy.js') }\nexport {used as reexported} from './b.js';\n",
+		"src/a.js":      "import {used} from './b.js';\nimport('external-pkg/dyn').then(console.log);\nimport './side.js';\nimport data from './data.json';\nimport ext from 'external-pkg';\nimport * as ext2 from 'external-pkg/sub';\nconst cjs = require('./cjs.cjs');\nconsole.log('MARK_a_1', used, data, ext, ext2, cjs);\nexport const fromA = 'MARK_a_2';\nexport default function main() { return import('./lazy.js') }\nexport {used as reexported} from './b.js';\n",
 		"src/b.js":      "export const used = 'MARK_b_1';\nexport const unusedExport = 'MARK_b_2';\nconsole.log('MARK_b_3');\n",
 		"src/side.js":   "console.log('MARK_side_1');\n",
 		"src/shaken.js": "export const never = 'MARK_shaken_1';\n",
@@ -90,7 +90,7 @@ func famFiles() []family {
 				{"src/a.js", "src/replacement.js", "import-statement", false}, {"src/a.js", "(disabled):src/disabled.js", "import-statement", false}, {"src/a.js", "src/mapped/x.js", "import-statement", false}, {"src/a.js", "src/alias-target.js", "import-statement", false}}},
 		{name: "js-graph", files: js1, entries: []string{"src/a.js"}, unread: []string{"src/unread.js"}, base: jsBase,
 			edges: []famEdge{{"src/a.js", "src/b.js", "import-statement", false}, {"src/a.js", "src/side.js", "import-statement", false}, {"src/a.js", "src/data.json", "import-statement", false},
-				{"src/a.js", "external-pkg", "import-statement", true}, {"src/a.js", "external-pkg/sub", "import-statement", true}, {"src/a.js", "src/cjs.cjs", "require-call", false}, {"src/a.js", "src/lazy.js", "dynamic-import", false},
+				{"src/a.js", "external-pkg", "import-statement", true}, {"src/a.js", "external-pkg/sub", "import-statement", true}, {"src/a.js", "src/cjs.cjs", "require-call", false}, {"src/a.js", "src/lazy.js", "dynamic-import", false}, {"src/a.js", "external-pkg/dyn", "dynamic-import", true},
 				{"src/lazy.js", "src/shaken.js", "import-statement", false}}},
 		{name: "css-graph", files: css1, entries: []string{"src/entry.css"}, unread: []string{"src/main.js"}, cssOnly: true, base: func() api.BuildOptions {
 			return api.BuildOptions{Bundle: true, Outdir: "out", Loader: map[string]api.Loader{".png": api.LoaderFile, ".svg": api.LoaderDataURL}, External: []string{"http://*", "https://*"}}
@@ -138,6 +138,19 @@ func famVariants() []famVariant {
 		}},
 		{"public-path", func(o *api.BuildOptions) { o.PublicPath = "https://cdn.example.com/base/" }},
 		{"legal-external", func(o *api.BuildOptions) { o.LegalComments = api.LegalCommentsExternal }},
+		{"cjs-node10", func(o *api.BuildOptions) {
+			// node 10 has no import(): external dynamic imports are printed as Promise.resolve().then(() => require(...))
+			if !o.Splitting {
+				o.Format = api.FormatCommonJS
+			}
+			o.Engines = []api.Engine{{Name: api.EngineNode, Version: "10"}}
+		}},
+		{"iife-chrome60", func(o *api.BuildOptions) {
+			if !o.Splitting {
+				o.Format = api.FormatIIFE
+			}
+			o.Engines = []api.Engine{{Name: api.EngineChrome, Version: "60"}}
+		}},
 		{"cjs", func(o *api.BuildOptions) {
 			if !o.Splitting {
 				o.Format = api.FormatCommonJS
